@@ -31,6 +31,7 @@ declare -A CHECKS=(
  [r13c-m1]="C05 C11" [r13c-m2]="C11" [r13c-m3]="C11" [r13d-m1]="C01 C13" [r13d-m2]="C14" [r13d-m3]="C19" [r13d-m4]="C19"
  [r14a-m1]="C12 C13" [r14a-m2]="C05" [r14a-m3]="C12 C13" [r14b-m1]="C01" [r14b-m2]="C01" [r14c-m1]="C05 C04" [r14c-m2]="C11" [r14c-m3]="C14 C19"
  [r15a-m1]="C12" [r15a-m2]="C13" [r15a-m3]="C19" [r15a-m4]="C01" [r15b]="C11" [r15c-m1]="C04" [r15c-m2]="C14" [r15c-m3]="C19" [r15c-m4]="C04"
+ [r16a-m1]="C12" [r16a-m2]="C04" [r16b-m1]="C19" [r16b-m2]="C12" [r16b-m3]="C14" [r16b-m4]="C19" [r16c-m1]="C04" [r16c-m2]="C04 C05" [r16c-m3]="C01"
  [c15c]="C15" [c15d-m1]="C15" [c15d-m2]="C19 C15" [c15d-m3]="C15" [c19b]="C19" [c19c]="C19" [c05b]="C05" [c04c]="C04"
 )
 for d in seeded/*/; do
